@@ -3,6 +3,7 @@ package vc
 import (
 	"fmt"
 	"go/ast"
+	"go/constant"
 	"go/token"
 	"go/types"
 	"regexp"
@@ -155,6 +156,13 @@ func (e *Engine) evalCall(st *State, call *ast.CallExpr) ([]Val, error) {
 		return args, nil
 	}
 	fn := e.staticCallee(call)
+	if fn != nil && len(call.Args) >= 1 && e.methodKeyAt(call, fn) == "fmt.Sprintf" && !call.Ellipsis.IsValid() {
+		if v, ok, err := e.sprintfAsConcat(st, call); err != nil {
+			return nil, err
+		} else if ok {
+			return []Val{v}, nil
+		}
+	}
 	if fn != nil && len(call.Args) == 2 && e.methodKeyAt(call, fn) == "sort.Slice" {
 		if lit, ok := ast.Unparen(call.Args[1]).(*ast.FuncLit); ok {
 			return nil, e.sortSlice(st, call, lit)
@@ -899,6 +907,96 @@ func (e *Engine) assertAtCall(st *State, key string, call *ast.CallExpr) error {
 		e.oblige(st, "assert", fmt.Sprintf("at-call(%s)%s", key, label), call.Pos(), v.T)
 	}
 	return nil
+}
+
+// sprintfAsConcat: fmt.Sprintf with a constant format made of literal text and
+// the verbs %s (string argument), %d (int argument) and %v (string or int) is
+// the concatenation, left to right, of the literal pieces and the arguments
+// (integers through strconv.Itoa): the same term a hand-written
+// a + "_" + b + strconv.Itoa(i) produces. Other formats are left to the contract
+// of fmt.Sprintf.
+func (e *Engine) sprintfAsConcat(st *State, call *ast.CallExpr) (Val, bool, error) {
+	tv, ok := e.info().Types[call.Args[0]]
+	if !ok || tv.Value == nil || tv.Value.Kind() != constant.String {
+		return Val{}, false, nil
+	}
+	format := constant.StringVal(tv.Value)
+	type piece struct {
+		lit  string
+		verb byte
+	}
+	var pieces []piece
+	cur := ""
+	for i := 0; i < len(format); i++ {
+		if format[i] != '%' {
+			cur += string(format[i])
+			continue
+		}
+		if i+1 >= len(format) {
+			return Val{}, false, nil
+		}
+		i++
+		switch format[i] {
+		case '%':
+			cur += "%"
+		case 's', 'd', 'v':
+			if cur != "" {
+				pieces = append(pieces, piece{lit: cur})
+				cur = ""
+			}
+			pieces = append(pieces, piece{verb: format[i]})
+		default:
+			return Val{}, false, nil
+		}
+	}
+	if cur != "" {
+		pieces = append(pieces, piece{lit: cur})
+	}
+	itoa := e.Contracts.Funcs["strconv.Itoa"]
+	strTy := types.Typ[types.String]
+	var acc *smt.T
+	argi := 1
+	for _, p := range pieces {
+		var t smt.T
+		if p.verb == 0 {
+			t = e.StrLit(p.lit)
+		} else {
+			if argi >= len(call.Args) {
+				return Val{}, false, nil
+			}
+			a, err := e.eval(st, call.Args[argi])
+			if err != nil {
+				return Val{}, false, err
+			}
+			argi++
+			switch {
+			case isString(a.Ty) && (p.verb == 's' || p.verb == 'v'):
+				t = a.T
+			case a.T.Sort == smt.Int && (p.verb == 'd' || p.verb == 'v') && itoa != nil:
+				outs, err := e.ApplyContract(st, itoa, nil, []Val{a}, []types.Type{strTy}, call.Pos())
+				if err != nil || len(outs) != 1 {
+					return Val{}, false, nil
+				}
+				t = outs[0].T
+			default:
+				return Val{}, false, nil
+			}
+		}
+		if acc == nil {
+			acc = &t
+		} else {
+			c := smt.App(smt.V, "str_cat", *acc, t)
+			acc = &c
+		}
+	}
+	if argi != len(call.Args) {
+		return Val{}, false, nil
+	}
+	if acc == nil {
+		l := e.StrLit("")
+		acc = &l
+	}
+	return Val{*acc, strTy}, true, nil
 }
 
 // sortSlice models sort.Slice(x, func(i, j int) bool { return E }) where E
